@@ -99,6 +99,10 @@ func (m *M) intrinsic(p *path, fr *Frame, ci ssa.CallInstruction, fn *ssa.Functi
 			m.lockDel(p, a)
 			return true, m.done(p, fr, ci, isDefer, nil)
 		case "TryLock":
+			if n := m.cellName(a); !m.tryMutex[n] {
+				m.tryMutex[n] = true
+				m.tryGrew = true
+			}
 			if locked.IsConst() {
 				if locked.IsFalse() {
 					m.memSet(p, a, VBool{c.T})
@@ -407,6 +411,15 @@ func (m *M) vrt(p *path, fr *Frame, ci ssa.CallInstruction, name string, args []
 			panic(unsupported("CancelAnytime of a non-cancel function"))
 		}
 		m.memSet(p, cl.A+2, VBool{c.T})
+		if _, ok := m.EnvOwner[cl.A]; !ok {
+			n := 0
+			for _, o := range m.EnvOwner {
+				if o[0] == p.cfg.Th {
+					n++
+				}
+			}
+			m.EnvOwner[cl.A] = [2]int{p.cfg.Th, n}
+		}
 		return m.done(p, fr, ci, isDefer, nil)
 	case "AtQuiescence":
 		cl := args[0].(*VSet).Alts[0].C.(*Closure)
